@@ -103,6 +103,14 @@ def run_shard(spec, R):
                 except Exception:
                     pass  # the predecessor only provides history; its own results are judged when its shape is the case
             R.count("transposed_grid_solved_before")
+        # ... and an AMG solver with its own, user-defined multilevel set-up (non-symmetric smoothers, tiny coarse level)
+        try:
+            popt = wass.make_options(darsia, "newton", "RAVIART_THOMAS", "CELL_BASED", "pressure", "amg", 0, 2)
+            popt["amg_options"] = {"presmoother": ("gauss_seidel", {"sweep": "forward"}), "postsmoother": ("gauss_seidel", {"sweep": "forward"}), "max_coarse": 5}
+            darsia.WassersteinDistanceNewton(grid, None, popt)(m1, m2)
+        except Exception:
+            pass  # history only
+        R.count("user_defined_amg_setup_used_before")
         for ci, (formulation, backend) in enumerate(COMBOS):
             rng = rng_for(spec["seed"], "C08", 1000 + spec["shard"], 100 * spec["shapes"].index(list(shape)) + ci)
             case = {"shape": list(shape), "voxel_size": h, "formulation": formulation, "backend": backend}
